@@ -100,7 +100,7 @@ Fails0 == %s
 Fails1 == %s
 RInit == Init /\\ viol = {<<c, 0>> : c \\in Fails0}
 RNext == Next /\\ viol' = viol \\cup {<<c, l'>> : c \\in (Fails1 \\ {x[1] : x \\in viol})}
-Report == (l = Len(Traces[tid].ev) /\\ viol # {}) => PrintT(<<"V", tid, viol>>)
+Report == (l = Len(Traces[tid].ev) /\\ viol # {}) => \\A v \\in viol : PrintT(<<"V", tid, v[1], v[2]>>)
 ====
 """ % (name, module, f0, f1)
     return name, text
@@ -124,12 +124,8 @@ def check_batch(module, traces, invariants, properties, workers=8, timeout=900, 
     r = tlc.run_tlc(name, cfg, workers=workers, timeout=timeout, env_extra={"TRACE_FILE": tf},
                     workdir=os.path.join(wd, "tlc"), jvm=("-Xmx6g", "-Xss16m"))
     viol = []
-    for line in r.stdout.splitlines():
-        m = _RE_V.match(line.strip())
-        if m:
-            tid = int(m.group(1))
-            for c, l in _RE_PAIR.findall(m.group(2)):
-                viol.append({"clause": c, "tid": tid, "l": int(l)})
+    for tid, c, l in re.findall(r'<<\s*"V",\s*(\d+),\s*"([A-Za-z0-9_]+)",\s*(\d+)\s*>>', r.stdout):
+        viol.append({"clause": c, "tid": int(tid), "l": int(l)})
     if not workdir:
         import shutil
         shutil.rmtree(wd, ignore_errors=True)
